@@ -545,3 +545,37 @@ func TestRowOrders(t *testing.T) {
 	}
 	noBroken(t, e)
 }
+
+func TestReorderColumns(t *testing.T) {
+	e, db := setup(t)
+	ctx := context.Background()
+	db.InsertRow(ctx, &pair{A: 1, B: "x", V: sp("v")})
+	var changes []RowChange
+	e.SetHooks(Hooks{OnCommit: func(c []RowChange) { changes = append(changes, c...) }})
+	if err := e.ReorderColumns("pairs", []string{"v", "a", "b"}); err != nil {
+		t.Fatal(err)
+	}
+	if err := e.ReorderColumns("pairs", []string{"v", "a"}); err == nil {
+		t.Fatal("short order accepted")
+	}
+	db.InsertRow(ctx, &pair{A: 2, B: "y"})
+	db.UpdateRow(ctx, &pair{A: 1, B: "x", V: sp("w")})
+	var ps []*pair
+	if err := db.Query(ctx, &ps, sqlgen.Filter{"a": int32(1)}, nil); err != nil || len(ps) != 1 || *ps[0].V != "w" || ps[0].B != "x" {
+		t.Fatalf("after reorder: %+v %v", ps, err)
+	}
+	if len(changes) != 2 || changes[0].After[0] != nil || changes[0].After[1] != int64(2) || changes[1].Before[0] != "v" || changes[1].After[0] != "w" {
+		t.Fatalf("row images not in the new column order: %+v", changes)
+	}
+	rows, _ := db.Conn.Query("SELECT column_name FROM information_schema.columns WHERE table_schema = ? AND table_name = ? ORDER BY ordinal_position", "testdb", "pairs")
+	var cols []string
+	for rows.Next() {
+		var c string
+		rows.Scan(&c)
+		cols = append(cols, c)
+	}
+	if strings.Join(cols, ",") != "v,a,b" {
+		t.Fatalf("ordinal positions: %v", cols)
+	}
+	noBroken(t, e)
+}
